@@ -434,6 +434,29 @@ def _main(chk, tier, binary):
                            'documented': [r[:3] for r in ranges if (r[0], r[1]) == rng]},
                           {'kind': 'driver', 'case': list(case0)})
 
+    # ---- named constants of mp::sol::Status: each lies in the documented range its name says (drivers report through the names)
+    NAME_CAT = [('MP_SOLUTION_CHECK', 'uncertain'), ('SOLVED', 'solved'), ('UNCERTAIN', 'uncertain'), ('INFEASIBLE', 'infeasible'),
+                ('UNBOUNDED_NO_FEAS', 'unbounded_nofeas'), ('UNBOUNDED_FEAS', 'unbounded_feas'), ('UNBOUNDED', 'unbounded_feas'),
+                ('LIMIT_NO_FEAS', 'limit_nofeas'), ('LIMIT_INF_UNB', 'limit_infunb'), ('INF_OR_UNB', 'limit_infunb'),
+                ('LIMIT_FEAS', 'limit_feas'), ('LIMIT', 'limit_feas'), ('FAILURE', 'failure'), ('NUMERIC', 'failure'),
+                ('SPECIFIC', 'failure'), ('INTERRUPTED', 'failure')]
+    pn = subprocess.run([binary, '--names'], capture_output=True, text=True, cwd=WORK, env={'PATH': '/usr/bin:/bin', 'LC_ALL': 'C'}, timeout=60)
+    nrows = [r for r in vcheck.parse_jsonl(pn.stdout) if r.get('type') == 'name']
+    if pn.returncode != 0 or len(nrows) < 50: chk.broken.append('names harness incomplete rc=%s rows=%d' % (pn.returncode, len(nrows)))
+    chk.set('named_constants_checked', len(nrows))
+    seen_first = {}
+    for r in nrows:
+        cat = next(c for pfx, c in NAME_CAT if r['name'] == pfx or r['name'].startswith(pfx + '_'))
+        rng = next((lo, hi) for lo, hi, _, c in ranges if c == cat)
+        classes.add('name %s in its range: %s' % (cat, rng[0] <= r['value'] <= rng[1]))
+        prob = None
+        if not (rng[0] <= r['value'] <= rng[1]): prob = 'lies outside the documented range %d-%d of its class' % rng
+        elif r['name'].endswith('_LAST') and not r['name'].startswith('MP_') and r['value'] != rng[1]: prob = 'is not the last code %d of its documented range' % rng[1]
+        elif r['name'].endswith('_NEW') and r['value'] in seen_first: prob = 'coincides with %s (start of another class\'s custom codes)' % seen_first[r['value']]
+        if r['name'].endswith('_NEW'): seen_first[r['value']] = r['name']
+        if prob:
+            chk.violation('C10 named constant sol::%s %s' % (r['name'], prob), {'name': r['name'], 'value': r['value'], 'class': cat,
+                                                                               'documented_range': list(rng)}, {'kind': 'names'})
     # ---- classification predicates, in-process on the driver's backend class
     rc, rows, done, err, brk = run_predicates(binary, LO, HI)
     for b in brk: chk.broken.append('predicate harness: %s' % b.get('why'))
@@ -530,6 +553,9 @@ def replay(path):
             exp = orc.predicate(r['name'], r['code'])
             print(json.dumps({'row': rows, 'expected': exp}))
             return 1 if (not rows or (exp is not None and bool(rows[0][r['name']]) != exp)) else 0
+        if r['kind'] == 'names':
+            pn = subprocess.run([binary, '--names'], capture_output=True, text=True, cwd=WORK, env={'PATH': '/usr/bin:/bin', 'LC_ALL': 'C'}, timeout=60)
+            print(pn.stdout); return 0
         rc, out, err = run_bang(binary)
         f = judge_bang(ranges, out)
         print(out, json.dumps(f, indent=1))
